@@ -58,6 +58,13 @@ def curated(ext_modes=("sinks", "all", "interior")) -> list[JobSpec]:
     # requested output that also has consumers elsewhere (replication of a requested dataset)
     out.append(simple_job("fork/root-requested", 3, [(0, 1), (0, 2)], [(0, "0"), (1, "0")]))
     out.append(simple_job("diamond/root+sink", 4, [(0, 1), (0, 2), (1, 3), (2, 3)], [(0, "0"), (3, "0")]))
+    # tasks whose value is None (a function without a return statement): as a requested sink, and as a requested
+    # dataset that also feeds a consumer
+    for nm, nones, ext in (("none-sink", [1], [(1, "0")]), ("none-mid", [0], [(0, "0"), (1, "0")])):
+        sp = simple_job(f"{nm}", 2, [(0, 1)], ext)
+        for i in nones:
+            sp.tasks[f"t{i}"]["none"] = True
+        out.append(sp)
     return out
 
 
